@@ -912,3 +912,30 @@ func (r *Region) EstablishingEdges(p Pred) []Edge {
 	}
 	return out
 }
+
+// Lifted: the event itself, or a plain call of a function of the package on every path of which the event
+// occurs (helpers looked through to a small depth).  Lets must-rules survive the extraction of a few
+// statements into a helper.  Value matchers inside ev are evaluated in the helper's own frame, so an event
+// that names the caller's locals does not lift.
+func (p *Program) Lifted(ev Ev) Ev { return p.liftedDepth(ev, 2) }
+
+func (p *Program) liftedDepth(ev Ev, depth int) Ev {
+	return func(it Item) bool {
+		if ev(it) {
+			return true
+		}
+		if depth == 0 {
+			return false
+		}
+		cl, ok := it.In.(*ssa.Call)
+		if !ok || cl.Call.IsInvoke() {
+			return false
+		}
+		callee := cl.Call.StaticCallee()
+		if callee == nil || len(callee.Blocks) == 0 || (callee.Pkg != p.Sarama && callee.Pkg != p.Mocks) {
+			return false
+		}
+		esc, _ := WholeFn(callee).Escape(p.liftedDepth(ev, depth-1))
+		return !esc
+	}
+}
